@@ -1,5 +1,7 @@
 """constants of sciparse path policy (hop_pattern.rs lexer/parser, identifier/asn.rs) -> Gen/PolicyConfig.v
-(src, need, emit, missing, re are injected by tools/gen.py)"""
+(src, need, expect, emit, missing, re are injected by tools/gen.py).
+need = constants/tables the model imports; expect = mirrored statements whose behaviour the
+correspondence harness observes (soft: a miss adds cases, the correspondence decides)."""
 
 def generate():
     rel = "crates/libs/sciparse/src/scion/path/policy/hop_pattern.rs"
@@ -15,11 +17,12 @@ def generate():
     kinds = {"QMark", "Plus", "Star", "Bang", "And", "Or", "LParen", "RParen"}
     if {k for _, k in singles} != kinds or len(singles) != 8:
         missing.append(f"{rel}: next_token single-character token table (found {singles})")
-    need(t, r"c if c\.is_whitespace\(\) => continue,", "next_token skips char::is_whitespace", rel)
-    need(t, r"if p\.is_whitespace\(\) \|\| Self::RESERVED_CHARS\.contains\(p\)", "read_hop_predicate break condition", rel)
-    need(t, r"Grouping::LeftToRight => op_binding_power \+ 1,", "left-to-right rhs binding power", rel)
-    need(t, r"if left_binding_power > op_binding_power \{", "binding power comparison", rel)
-    need(t, r"\(OR_BIND_POWER, Grouping::LeftToRight,", "OR is LeftToRight with OR_BIND_POWER", rel)
+    # mirrored statements (behaviour observed by the harness: lexing/parsing/matching) -- SOFT
+    expect(t, r"is_whitespace\(\)\s*=>\s*continue", "next_token skips char::is_whitespace", rel)
+    expect(t, r"is_whitespace\(\)\s*\|\|\s*(Self::)?RESERVED_CHARS\.contains", "read_hop_predicate break condition", rel)
+    expect(t, r"LeftToRight\s*=>\s*\w+\s*\+\s*1", "left-to-right rhs binding power + 1", rel)
+    expect(t, r"binding_power\s*>\s*\w*binding_power", "binding power comparison", rel)
+    expect(t, r"OR_BIND_POWER,\s*Grouping::LeftToRight", "OR is LeftToRight with OR_BIND_POWER", rel)
     rel2 = "crates/libs/sciparse/src/scion/identifier/asn.rs"
     a = src(rel2)
     m = need(a, r"pub const BITS: u32 = (\d+);", "Asn::BITS", rel2)
@@ -28,24 +31,23 @@ def generate():
     bpp = int(m.group(1)) if m else 0
     m = need(a, r"const NUMBER_PARTS: u32 = (\d+);", "Asn::NUMBER_PARTS", rel2)
     parts = int(m.group(1)) if m else 0
-    need(a, r"const BGP_ASN_FORMAT_BOUNDARY: u64 = u32::MAX as u64;", "BGP_ASN_FORMAT_BOUNDARY", rel2)
-    need(a, r"if bgp_asn <= u32::MAX\.into\(\)", "decimal ASN bound", rel2)
+    # ASN_DECIMAL_MAX below is u32::MAX: the constant is imported, the comparison is observed
+    need(a, r"BGP_ASN_FORMAT_BOUNDARY: u64 = u32::MAX as u64", "BGP_ASN_FORMAT_BOUNDARY = u32::MAX", rel2)
+    expect(a, r"<=\s*u32::MAX", "decimal ASN bound in from_str", rel2)
     if parts != 3:
         missing.append(f"{rel2}: NUMBER_PARTS = 3 expected by the model of Asn::from_str (found {parts})")
     rel3 = "crates/libs/sciparse/src/scion/path/policy/acl.rs"
     c = src(rel3)
-    need(c, r"if path\.is_empty\(\) \|\| self\.entries\.is_empty\(\) \{", "AclPolicy::matches empty shortcut", rel3)
-    # wildcard semantics the model's predicate matching follows
+    expect(c, r"is_empty\(\)\s*\|\|\s*self\.entries\.is_empty\(\)", "AclPolicy::matches empty shortcut", rel3)
+    # wildcard semantics the model's predicate matching follows (observed: hop alphabets with 0)
     for rel4 in ("crates/libs/sciparse/src/scion/identifier/isd.rs", "crates/libs/sciparse/src/scion/identifier/asn.rs"):
-        need(src(rel4), r"self\.is_wildcard\(\) \|\| other\.is_wildcard\(\) \|\| self\.0 == other\.0", "matches: wildcard on either side", rel4)
+        expect(src(rel4), r"is_wildcard\(\)\s*\|\|\s*other\.is_wildcard\(\)\s*\|\|\s*self\.0\s*==\s*other\.0", "matches: wildcard on either side", rel4)
     rel5 = "crates/libs/sciparse/src/scion/path/policy/types.rs"
     ty = src(rel5)
-    need(ty, r"self\.is_wildcard\(\) \|\| self\.0 == interface", "InterfacePredicate::matches", rel5)
-    need(ty, r"InterfacesPredicate::Either\(any\) => any\.matches\(hop_ingress\) \|\| any\.matches\(hop_egress\)", "InterfacesPredicate::matches Either", rel5)
-    need(ty, r"ingress\.matches\(hop_ingress\) && egress\.matches\(hop_egress\)", "InterfacesPredicate::matches Both", rel5)
-    need(t, r"pos < hops\.len\(\) && hops\[pos\]\.matches\(pred\)", "match_from guarded index", rel)
-    need(t, r"while !frontier\.is_empty\(\) \{", "all_nested_matches loop", rel)
-    need(t, r"if self\.pos < self\.tokens\.len\(\) - 1 \{", "parse trailing-token check", rel)
+    expect(ty, r"is_wildcard\(\)\s*\|\|\s*self\.0\s*==\s*\w+", "InterfacePredicate::matches", rel5)
+    expect(ty, r"\.matches\(hop_ingress\)\s*\|\|\s*\w+\.matches\(hop_egress\)", "InterfacesPredicate::matches Either", rel5)
+    expect(ty, r"\.matches\(hop_ingress\)\s*&&\s*\w+\.matches\(hop_egress\)", "InterfacesPredicate::matches Both", rel5)
+    expect(t, r"self\.pos\s*<\s*self\.tokens\.len\(\)\s*-\s*1", "parse trailing-token check", rel)
     tok = {k: ord(ch) for ch, k in singles}
     body = f"""From Coq Require Import NArith List.
 Import ListNotations.
